@@ -13,7 +13,7 @@ import Koreo.Gen.CacheFacts
 
 namespace Koreo.C16
 open Koreo.HotReload
-variable {R : Type} [DecidableEq R]
+variable {R : Type} [DecidableEq R] {Spec : Type}
 
 /-- The atomicity facts the transition system relies on (offers, deletes and re-preparations do
     not suspend; the registry never awaits; the monitor awaits only its queue and the
@@ -22,19 +22,20 @@ variable {R : Type} [DecidableEq R]
     re-read from the current cache.py / registry.py on every run. -/
 theorem atomicity_facts_hold : Koreo.Gen.CacheFacts.allHold = true := by decide
 
-/-- reachable by some interleaving of operations and monitor steps whose declared dependencies
-    respect `rank` -/
-def Reachable (rank : R → Nat) (s : State R) : Prop :=
-  ∃ acts : List (Action R), (∀ a ∈ acts, Ranked rank a) ∧ s = run init acts
+/-- reachable by some interleaving of operations and monitor steps; whatever the preparer `decl`
+    may declare for an offered spec (it may look at which resources are cached) respects `rank` -/
+def Reachable (decl : Spec → (R → Bool) → List R) (rank : R → Nat) (s : State R Spec) : Prop :=
+  ∃ acts : List (Action R Spec), (∀ a ∈ acts, Ranked decl rank a) ∧ s = run decl init acts
 
-theorem reachable_inv {rank : R → Nat} {s : State R} (h : Reachable rank s) : Inv rank s := by
+theorem reachable_inv {decl : Spec → (R → Bool) → List R} {rank : R → Nat} {s : State R Spec}
+    (h : Reachable decl rank s) : Inv decl rank s := by
   obtain ⟨acts, ha, rfl⟩ := h
-  exact inv_run acts (inv_init rank) ha
+  exact inv_run acts (inv_init decl rank) ha
 
 /-- **Coherence.**  Once the system is idle, each cached entry was built from the current
     state of everything it depends on — for any timing of offers, deletes and monitor steps. -/
-theorem coherent_when_idle {rank : R → Nat} {s : State R} (h : Reachable rank s) (hi : Idle s) :
-    Coherent s := by
+theorem coherent_when_idle {decl : Spec → (R → Bool) → List R} {rank : R → Nat} {s : State R Spec}
+    (h : Reachable decl rank s) (hi : Idle s) : Coherent s := by
   have inv := reachable_inv h
   intro r e hc d hd
   rcases inv.fresh r e hc d hd with h1 | ⟨q, hq, t, ht, _⟩
@@ -52,15 +53,16 @@ theorem coherent_when_idle {rank : R → Nat} {s : State R} (h : Reachable rank 
 
 /-- coherence is transitive by construction: the entry of a dependency is itself coherent, so an
     idle system is consistent along every dependency path -/
-theorem coherent_along_paths {rank : R → Nat} {s : State R} (h : Reachable rank s) (hi : Idle s)
-    (r d : R) (e ed : Entry R) (hc : s.cache r = some e) (hd : d ∈ e.deps)
+theorem coherent_along_paths {decl : Spec → (R → Bool) → List R} {rank : R → Nat} {s : State R Spec}
+    (h : Reachable decl rank s) (hi : Idle s)
+    (r d : R) (e ed : Entry R Spec) (hc : s.cache r = some e) (hd : d ∈ e.deps)
     (hcd : s.cache d = some ed) : e.seen d = s.gen d ∧ ∀ d' ∈ ed.deps, ed.seen d' = s.gen d' :=
   ⟨coherent_when_idle h hi r e hc d hd, fun d' hd' => coherent_when_idle h hi d ed hcd d' hd'⟩
 
 /-- a change that is not yet reflected is always on its way: between idle points every stale
     dependency of a cached entry has an unprocessed event newer than the entry's preparation -/
-theorem stale_implies_pending {rank : R → Nat} {s : State R} (h : Reachable rank s)
-    (r : R) (e : Entry R) (hc : s.cache r = some e) (d : R) (hd : d ∈ e.deps)
+theorem stale_implies_pending {decl : Spec → (R → Bool) → List R} {rank : R → Nat} {s : State R Spec}
+    (h : Reachable decl rank s) (r : R) (e : Entry R Spec) (hc : s.cache r = some e) (d : R) (hd : d ∈ e.deps)
     (hstale : e.seen d ≠ s.gen d) : Pending s r ∧ s.mon r ≠ .none := by
   have inv := reachable_inv h
   refine ⟨(inv.fresh r e hc d hd).resolve_left hstale, ?_⟩
@@ -68,38 +70,42 @@ theorem stale_implies_pending {rank : R → Nat} {s : State R} (h : Reachable ra
 
 /-- **A deleted resource leaves no watcher behind**: no subscriptions, no registry queue, no
     monitor — in every reachable state, not only at idle points. -/
-theorem deleted_leaves_no_watcher {rank : R → Nat} {s : State R} (h : Reachable rank s) (r : R)
+theorem deleted_leaves_no_watcher {decl : Spec → (R → Bool) → List R} {rank : R → Nat} {s : State R Spec}
+    (h : Reachable decl rank s) (r : R)
     (hc : s.cache r = none) : s.subs r = [] ∧ s.queue r = none ∧ s.mon r = .none := by
   obtain ⟨a, b, c⟩ := (reachable_inv h).uncached r hc
   exact ⟨a, c, b⟩
 
 /-- an unversioned (or matching-version) delete does uncache -/
-theorem delete_uncaches (s : State R) (r : R) : (delete s r none).cache r = none := by
+theorem delete_uncaches (s : State R Spec) (r : R) : (delete s r none).cache r = none := by
   cases hc : s.cache r with
   | none => simp [delete, hc]
   | some e => rw [delete_eq hc rfl]; simp [deleteState]
 
 /-- a delete that names a stale version changes nothing -/
-theorem stale_delete_noop (s : State R) (r : R) (e : Entry R) (v : Nat) (hc : s.cache r = some e)
+theorem stale_delete_noop (s : State R Spec) (r : R) (e : Entry R Spec) (v : Nat) (hc : s.cache r = some e)
     (hv : v ≠ e.version) : delete s r (some v) = s := by
   simp [delete, hc, staleVersion, hv]
 
 /-- **A (re-)offered resource is watched again**: every cached entry is subscribed to exactly
     its declared dependencies, has a registry queue and, if it has dependencies, a monitor —
     in every reachable state, in particular straight after delete-then-offer. -/
-theorem cached_is_watched {rank : R → Nat} {s : State R} (h : Reachable rank s) (r : R)
-    (e : Entry R) (hc : s.cache r = some e) :
+theorem cached_is_watched {decl : Spec → (R → Bool) → List R} {rank : R → Nat} {s : State R Spec}
+    (h : Reachable decl rank s) (r : R)
+    (e : Entry R Spec) (hc : s.cache r = some e) :
     s.subs r = e.deps ∧ (s.queue r).isSome = true ∧ (e.deps ≠ [] → s.mon r ≠ .none) := by
   have inv := reachable_inv h
   exact ⟨(inv.cached r e hc).1, (inv.cached r e hc).2, inv.watched r e hc⟩
 
 /-- offering a version that is not the cached one always (re)prepares: the new entry carries the
-    offered version and dependencies and was built from the current generations -/
-theorem offer_new_version_prepares (s : State R) (r : R) (v : Nat) (deps : List R)
-    (hnew : ∀ e, s.cache r = some e → e.version ≠ v) :
-    ∃ e, (offer s r v deps).cache r = some e ∧ e.version = v ∧ e.deps = deps ∧
-      (offer s r v deps).gen r = s.gen r + 1 := by
-  have : offer s r v deps = offerNew s r v deps := by
+    offered version and spec, declares what the preparer says for the cache as it is then, and was
+    built from the current generations -/
+theorem offer_new_version_prepares (decl : Spec → (R → Bool) → List R) (s : State R Spec) (r : R) (v : Nat)
+    (spec : Spec) (hnew : ∀ e, s.cache r = some e → e.version ≠ v) :
+    ∃ e, (offer decl s r v spec).cache r = some e ∧ e.version = v ∧ e.spec = spec ∧
+      e.deps = decl spec (cachedB s) ∧ (offer decl s r v spec).subs r = e.deps ∧
+      (offer decl s r v spec).gen r = s.gen r + 1 := by
+  have : offer decl s r v spec = offerNew decl s r v spec := by
     unfold offer
     cases hc : s.cache r with
     | none => rfl
@@ -107,38 +113,60 @@ theorem offer_new_version_prepares (s : State R) (r : R) (v : Nat) (deps : List 
   rw [this, offerNew_eq, handle_eq]
   have hg : (register (tick s) r).gen = s.gen := by
     unfold register; split <;> rfl
-  exact ⟨{ version := v, deps := deps, seen := (register (tick s) r).gen }, by simp [commitState],
-    rfl, rfl, by simp [commitState, hg]⟩
+  have hcb : cachedB (register (tick s) r) = cachedB s := by
+    unfold cachedB; rw [register_cache]; rfl
+  exact ⟨{ version := v, spec := spec, deps := decl spec (cachedB (register (tick s) r)),
+           seen := (register (tick s) r).gen }, by simp [commitState],
+    rfl, rfl, by rw [hcb], by simp [commitState], by simp [commitState, hg]⟩
 
 /-- offering the cached version again is a no-op (nothing is prepared, nobody is notified) -/
-theorem offer_same_version_noop (s : State R) (r : R) (e : Entry R) (deps : List R)
-    (hc : s.cache r = some e) : offer s r e.version deps = s := by
+theorem offer_same_version_noop (decl : Spec → (R → Bool) → List R) (s : State R Spec) (r : R)
+    (e : Entry R Spec) (spec : Spec) (hc : s.cache r = some e) : offer decl s r e.version spec = s := by
   simp [offer, hc]
+
+/-- **A background re-preparation re-declares.**  The preparer runs again on the cached spec and
+    may declare other dependencies than last time (it looks at which resources are cached now);
+    the entry records the new declaration and the resource follows exactly that from then on —
+    while version and spec stay those of the last offer.  (`cached_is_watched` then says the
+    subscription graph always equals the latest declarations.) -/
+theorem reprepare_redeclares (decl : Spec → (R → Bool) → List R) (s : State R Spec) (r : R)
+    (e : Entry R Spec) (hc : s.cache r = some e) :
+    ∃ e', (reprepare decl s r).cache r = some e' ∧ e'.version = e.version ∧ e'.spec = e.spec ∧
+      e'.deps = decl e.spec (cachedB s) ∧ (reprepare decl s r).subs r = e'.deps ∧
+      e'.seen = s.gen ∧ (reprepare decl s r).gen r = s.gen r + 1 := by
+  rw [reprepare_eq hc, handle_eq]
+  exact ⟨{ version := e.version, spec := e.spec, deps := decl e.spec (cachedB (tick s)),
+           seen := (tick s).gen }, by simp [commitState], rfl, rfl, rfl, by simp [commitState], rfl,
+    by simp [commitState, tick]⟩
 
 /-- **Latest offer wins, whatever the monitors do** (the cache's C15 clause in the presence of
     background re-preparation): in every state reached by any interleaving of offers, deletes
-    and monitor steps, the version and declared dependencies the cache shows for each resource
-    are exactly those of the last effective offer (`track` is a plain map that follows offers
-    and deletes and ignores monitor steps) — a re-preparation never resurrects an older version
-    or spec, and never brings a deleted entry back. No rank hypothesis is needed. -/
-theorem cache_shows_last_offer (acts : List (Action R)) :
-    view (run (init : State R) acts) = acts.foldl track (fun _ => none) := by
+    and monitor steps, the version and spec the cache shows for each resource are exactly those
+    of the last effective offer (`track` is a plain map that follows offers and deletes and
+    ignores monitor steps) — a re-preparation never resurrects an older version or spec, and
+    never brings a deleted entry back. No rank hypothesis is needed. -/
+theorem cache_shows_last_offer (decl : Spec → (R → Bool) → List R) (acts : List (Action R Spec)) :
+    view (run decl (init : State R Spec) acts) = acts.foldl track (fun _ => none) := by
   rw [view_run]; rfl
 
 /-- in particular a monitor step never changes what is cached for whom -/
-theorem monitor_step_keeps_versions (s : State R) (r : R) : view (bg s r) = view s := view_bg s r
+theorem monitor_step_keeps_versions (decl : Spec → (R → Bool) → List R) (s : State R Spec) (r : R) :
+    view (bg decl s r) = view s := view_bg decl s r
 
 /-- the subscription graph always respects the rank, so it is acyclic and the registry's cycle
     check (C17) never refuses a subscription issued by the cache -/
-theorem subscriptions_ranked {rank : R → Nat} {s : State R} (h : Reachable rank s) :
+theorem subscriptions_ranked {decl : Spec → (R → Bool) → List R} {rank : R → Nat} {s : State R Spec}
+    (h : Reachable decl rank s) :
     ∀ x, ∀ d ∈ s.subs x, rank d < rank x := (reachable_inv h).ranked
 
 /-- **Idleness is attainable** (so the premise of `coherent_when_idle` is not vacuous): from every
     reachable state, letting each monitor run once, in rank order, reaches an idle — hence
     coherent — reachable state without any further operation. -/
-theorem eventually_idle {rank : R → Nat} {s : State R} (h : Reachable rank s) :
-    ∃ rs : List R, Idle (run s (rs.map Action.bg)) ∧ Reachable rank (run s (rs.map Action.bg)) ∧
-      Coherent (run s (rs.map Action.bg)) := by
+theorem eventually_idle {decl : Spec → (R → Bool) → List R} {rank : R → Nat} {s : State R Spec}
+    (h : Reachable decl rank s) :
+    ∃ rs : List R, Idle (run decl s (rs.map Action.bg)) ∧
+      Reachable decl rank (run decl s (rs.map Action.bg)) ∧
+      Coherent (run decl s (rs.map Action.bg)) := by
   obtain ⟨acts, ha, rfl⟩ := h
   let le : R → R → Bool := fun a b => decide (rank a ≤ rank b)
   let rs := (offered acts).mergeSort le
@@ -147,43 +175,75 @@ theorem eventually_idle {rank : R → Nat} {s : State R} (h : Reachable rank s) 
       (fun a b c hab hbc => by simp only [le, decide_eq_true_eq] at *; omega)
       (fun a b => by simp only [le, Bool.or_eq_true, decide_eq_true_eq]; omega) (offered acts)
     exact this.imp (fun hab => by simpa [le] using hab)
-  have hcover : ∀ x, x ∈ rs ∨ (run init acts).mon x = .none ∨
-      (Quiet (run init acts) x ∧ ∀ y ∈ rs, ¬ rank y < rank x) := by
+  have hcover : ∀ x, x ∈ rs ∨ (run decl init acts).mon x = .none ∨
+      (Quiet (run decl init acts) x ∧ ∀ y ∈ rs, ¬ rank y < rank x) := by
     intro x
-    by_cases hm : (run init acts).mon x = .none
+    by_cases hm : (run decl init acts).mon x = .none
     · exact Or.inr (Or.inl hm)
-    · rcases mon_only_offered acts init x hm with h0 | h0
+    · rcases mon_only_offered decl acts init x hm with h0 | h0
       · exact absurd rfl h0
       · exact Or.inl (List.mem_mergeSort.2 h0)
-  have hreach : Reachable rank (run (run init acts) (rs.map Action.bg)) := by
+  have hreach : Reachable decl rank (run decl (run decl init acts) (rs.map Action.bg)) := by
     refine ⟨acts ++ rs.map Action.bg, ?_, by simp [run, List.foldl_append]⟩
     intro a hmem
     rcases List.mem_append.1 hmem with h1 | h1
     · exact ha a h1
     · obtain ⟨r, _, rfl⟩ := List.mem_map.1 h1; trivial
-  have hidle := settle_aux rs (inv_run acts (inv_init rank) ha) hsorted hcover
+  have hidle := settle_aux rs (inv_run acts (inv_init decl rank) ha) hsorted hcover
   exact ⟨rs, hidle, hreach, coherent_when_idle hreach hidle⟩
 
-/-! ## non-vacuity: a concrete history (delete, then offer again at once) reaches a non-trivial
-    state; one monitor step later the system is idle, and it is coherent -/
+/-! ## non-vacuity: concrete histories over the preparer family the harness installs
+    (`condDecl`: static dependencies plus dependencies declared only while another resource is
+    cached) reach non-trivial states -/
 
 def demoRank : Nat → Nat := id
 
-def demoActs : List (Action Nat) :=
-  [.offer 0 1 [], .offer 1 1 [0], .bg 1, .delete 1 none, .offer 1 2 [0], .offer 0 2 [], .bg 1]
+abbrev DS := CondSpec Nat
+def st (l : List Nat) : DS := { static := l, cond := [] }
 
-example : ∀ a ∈ demoActs, Ranked demoRank a := by
+/-- delete, then offer again at once -/
+def demoActs : List (Action Nat DS) :=
+  [.offer 0 1 (st []), .offer 1 1 (st [0]), .bg 1, .delete 1 none, .offer 1 2 (st [0]),
+   .offer 0 2 (st []), .bg 1]
+
+example : ∀ a ∈ demoActs, Ranked condDecl demoRank a := by
   intro a ha
   simp only [demoActs, List.mem_cons, List.mem_nil_iff, or_false] at ha
-  rcases ha with rfl | rfl | rfl | rfl | rfl | rfl | rfl <;> simp [Ranked, demoRank]
+  rcases ha with rfl | rfl | rfl | rfl | rfl | rfl | rfl <;>
+    simp [Ranked, SpecRanked, condDecl, st, demoRank]
 
 /-- before the last monitor step entry 1 is stale (built from generation 1 of resource 0, which is
     at generation 2) and has a pending event; after it the entry is current and the system idle -/
-example : ((run init (demoActs.take 6)).cache 1).map (fun e => e.seen 0) = some 1 ∧
-    (run init (demoActs.take 6)).gen 0 = 2 ∧
-    (run init (demoActs.take 6)).queue 1 = some [11] ∧
-    ((run init demoActs).cache 1).map (fun e => e.seen 0) = some 2 ∧
-    (run init demoActs).queue 1 = some [] ∧ (run init demoActs).mon 1 = .waiting := by
+example : ((run condDecl init (demoActs.take 6)).cache 1).map (fun e => e.seen 0) = some 1 ∧
+    (run condDecl init (demoActs.take 6)).gen 0 = 2 ∧
+    (run condDecl init (demoActs.take 6)).queue 1 = some [11] ∧
+    ((run condDecl init demoActs).cache 1).map (fun e => e.seen 0) = some 2 ∧
+    (run condDecl init demoActs).queue 1 = some [] ∧ (run condDecl init demoActs).mon 1 = .waiting := by
+  decide
+
+/-- a preparer that looks at the cache (the FunctionTest shape): resource 2 follows 1 and, once 1
+    is cached, 0 as well.  Offered while 1 is missing it follows `[1]`; after 1 is offered, the
+    monitor re-prepares 2, which now follows `[1, 0]`; a later change of 0 reaches it. -/
+def demoDyn : List (Action Nat DS) :=
+  [.offer 2 1 { static := [1], cond := [(1, 0)] }, .offer 1 1 (st []), .bg 2, .offer 0 1 (st []), .bg 2]
+
+example : ∀ a ∈ demoDyn, Ranked condDecl demoRank a := by
+  intro a ha
+  simp only [demoDyn, List.mem_cons, List.mem_nil_iff, or_false] at ha
+  rcases ha with rfl | rfl | rfl | rfl | rfl
+  · intro c d hd
+    simp only [condDecl, List.mem_append, List.mem_map, List.mem_filter] at hd
+    rcases hd with hd | ⟨p, ⟨hp, _⟩, rfl⟩
+    · simp at hd; subst hd; simp [demoRank]
+    · simp at hp; subst hp; simp [demoRank]
+  all_goals simp [Ranked, SpecRanked, condDecl, st, demoRank]
+
+example : (run condDecl init (demoDyn.take 1)).subs 2 = [1] ∧
+    (run condDecl init (demoDyn.take 3)).subs 2 = [1, 0] ∧
+    ((run condDecl init (demoDyn.take 4)).cache 2).map (fun e => e.seen 0) = some 0 ∧
+    (run condDecl init (demoDyn.take 4)).gen 0 = 1 ∧
+    ((run condDecl init demoDyn).cache 2).map (fun e => e.seen 0) = some 1 ∧
+    (run condDecl init demoDyn).queue 2 = some [] := by
   decide
 
 end Koreo.C16
